@@ -257,6 +257,31 @@ theorem include_env_closed_form (W : World) (E : EnvWorld C) (hW : W.envFromFile
   | some v => exact hp x v hx
   | none => rw [hn x hx, hget x]
 
+/-- **include_env_nested** (nested includes compose, environment clause): the project included at depth 2 is
+interpolated with `env2`, computed from the depth-1 project's environment `env1`, itself computed from the root
+environment `env`.  Every variable has the root's value if the root defines it, else the value of the last env file of
+the depth-1 entry that defines it, else the value of the last env file of the depth-2 entry that defines it -/
+theorem include_env_nested (W1 W2 : World) (E : EnvWorld C)
+    (h1W : W1.envFromFile = getEnvFromFile E) (h2W : W2.envFromFile = getEnvFromFile E)
+    (wd1 pd1 wd2 pd2 : String) (env env1 env2 : Env) (ef1 ef2 : List String)
+    (h1 : includeEnv W1 wd1 pd1 env ef1 = .ok env1) (h2 : includeEnv W2 wd2 pd2 env1 ef2 = .ok env2) :
+    ∃ efs1 ff1 es1 efs2 ff2 es2, Parsed E env efs1 [] es1 ff1 ∧ Parsed E env1 efs2 [] es2 ff2 ∧
+      ∀ x, Env.get env2 x = match Env.get env x with
+        | some v => some v
+        | none => match lastDefined es1 x with
+          | some w => some w
+          | none => lastDefined es2 x := by
+  obtain ⟨efs1, ff1, es1, _, hp1, hg1⟩ := include_env_closed_form W1 E h1W wd1 pd1 env env1 ef1 h1
+  obtain ⟨efs2, ff2, es2, _, hp2, hg2⟩ := include_env_closed_form W2 E h2W wd2 pd2 env1 env2 ef2 h2
+  refine ⟨efs1, ff1, es1, efs2, ff2, es2, hp1, hp2, fun x => ?_⟩
+  rw [hg2 x, hg1 x]
+  cases Env.get env x with
+  | some v => rfl
+  | none =>
+    cases lastDefined es1 x with
+    | some w => rfl
+    | none => rfl
+
 /-- non-vacuity: parent `V=p`; `a.env` gives `V=a, W=a`; `b.env` gives `W=b` — the project sees `V=p` (parent), `W=b`
 (last file), and `b.env` was parsed while `W=a` was visible -/
 example :
